@@ -531,6 +531,10 @@ func safeSubForm(x, y *core.VD) bool {
 	if _, err := fmt.Sscanf(y.Name, "%d", &c); err != nil {
 		return false
 	}
+	// (F - 1) - 1 is F - 2
+	if b, k0 := lin(x); b != nil && k0 < 0 {
+		x, c = b, c-k0
+	}
 	if x.IsCall("FirstSlotOfEpoch") && len(x.Args) > 0 && c <= 2 {
 		e, k := lin(x.Args[len(x.Args)-1])
 		if k >= 1 {
